@@ -9,6 +9,11 @@ use crate::util::io::ReadLine;
 use std::collections::HashMap;
 use std::io::{stdin, Write};
 
+/// Verification hook: number of commands executed speculatively by `optimize`
+#[cfg(hyeong_verif)]
+pub static VERIF_SPEC_STEPS: std::sync::atomic::AtomicUsize =
+    std::sync::atomic::AtomicUsize::new(0);
+
 /// Optimization helper function for level 2 optimization
 fn opt_execute<T>(
     ipt: &mut impl ReadLine,
@@ -28,6 +33,9 @@ where
         if exec_count >= 100 {
             return Ok((state_clone, false));
         }
+
+        #[cfg(hyeong_verif)]
+        VERIF_SPEC_STEPS.fetch_add(1, std::sync::atomic::Ordering::Relaxed);
 
         let code = (*state.get_code(cur_loc)).clone();
         let mut cur_stack = state.current_stack();
